@@ -532,6 +532,9 @@ def register_all(REGISTRY):
     # only the edge polarity of pin 1 is written (0 <-> 1), pin 0 stays at its reset setting: per-pin wiring of the edge register
     gpio("GPIOIn(2 pins,irq,edge of pin 1 writable),csr8", "quick", 8, 2, cfg_menu=(0, 2), cfg_regs=("edge",),
          pend_menu=(3,), en_menu=(3,), reads=(), read_in=False)
+    # mixed configurations: only the mode bit of pin 1 is written (Edge <-> Change) while pin 0 stays in Edge mode: per-pin wiring of the mode register
+    gpio("GPIOIn(2 pins,irq,mode of pin 1 writable),csr8", "quick", 8, 2, cfg_menu=(0, 2), cfg_regs=("mode",),
+         pend_menu=(3,), en_menu=(3,), reads=(), read_in=False)
     gpio("GPIOIn(2 pins,irq,pin 0 configurable),csr8", "thorough", 8, 2, cfg_menu=(1,), **small)
     gpio("GPIOIn(2 pins,irq,pin 1 configurable),csr32", "thorough", 32, 2, cfg_menu=(2,), **small)
     gpio("GPIOTristate(2 pins,irq,reset configuration),csr32", "thorough", 32, 2, flavour="GPIOTristate", cfg_menu=(), **small)
